@@ -141,6 +141,11 @@ FIXED += [
   'remote addresses whose host is an IPv6 literal with a non-ASCII zone ("https://[fe80::1%25é]/foo.tgz") were accepted and printed in a form that net/url refuses to read'),
 ]
 
+FIXED += [
+ ("C02", "unpack-of-own-slug-failed", "fix: Unpack works with a relative destination directory",
+  'Unpack(r, ".") refused every entry as a traversal (also before this session); Unpack(r, "dst") with in-tree links refused them as external since the physical link check of fix 39 compared a relative path with the absolute destination'),
+]
+
 OPEN = [
  # (property, key, what fails)
  ("C06", "edge-whitespace",
